@@ -44,6 +44,12 @@ class C01(Prop):
         if strict.startswith("OK"):
             if strict.split(":")[1] != inp:
                 return "from_str(s).to_string() != s"
+        # Deb822::read / read_relaxed over the same bytes behave like from_str / from_str_relaxed
+        rd, rdr = r.get("read", ""), r.get("readr", "")
+        if rdr != f"{inp}:{r.get('nerr')}":
+            return "read_relaxed over the same bytes differs from from_str_relaxed (text or error count)"
+        if rd.startswith("OK") != strict.startswith("OK") or (rd.startswith("OK") and rd[3:] != inp):
+            return "read over the same bytes differs from from_str"
         return None
 
     def nontrivial(self, stream, fields, impl):
